@@ -916,6 +916,10 @@ class IRSpec:
 
         def havoc(s):
             for f in spec.modifies:
+                if f == 'memo*':
+                    for k_ in [k_ for k_ in s.heap if k_.startswith('memo_')]:
+                        s.heap[k_] = c.fresh(k_.replace(':', '_') + '_lp', s.heap[k_].sort())
+                    continue
                 s.heap[f] = c.fresh(f.replace(':', '_') + '_lp', s.heap[f].sort())
             for name, kind in spec.locals.items():
                 if kind == 'list':
@@ -974,7 +978,21 @@ class IRSpec:
             pass
         else:
             sb.loops = sb.loops + [lvb]
+            heap_in = dict(sb.heap); env_in = dict(sb.env)
+            targets = set(n_.id for n_ in ast.walk(node.target) if isinstance(n_, ast.Name))
             def body_end(s2):
+                # soundness of the cut: whatever the body changes must be declared (havocked and described by the invariant)
+                for f_ in s2.heap:
+                    if f_ in spec.modifies or (f_.startswith('memo_') and 'memo*' in spec.modifies): continue
+                    if f_ not in heap_in or not s2.heap[f_].eq(heap_in[f_]):
+                        raise Unsupported('loop %d of %s stores to %s, which its invariant does not declare' % (ordinal, fr.fi.qual, f_))
+                for n_, v_ in s2.env.items():
+                    if n_ in targets or n_ in spec.locals or n_ not in env_in: continue
+                    w_ = env_in[n_]
+                    same = (v_ is w_) or (len(v_) == len(w_) and all((a_ is b_) or (hasattr(a_, 'eq') and hasattr(b_, 'eq') and a_.eq(b_)) or a_ == b_
+                                                                      for a_, b_ in zip(v_, w_) if not (hasattr(a_, 'eq') != hasattr(b_, 'eq'))))
+                    if not same:
+                        raise Unsupported('loop %d of %s assigns the local %s, which its invariant does not declare' % (ordinal, fr.fi.qual, n_))
                 lve = view(s2, nseen, it, nidx, s2.heap)
                 lve.prev = lvb
                 for prop, name, g in spec.inv(lve):
